@@ -138,3 +138,5 @@ func Quiesce()            { time.Sleep(2 * time.Millisecond) }
 func LiveLibThreads() int { return 0 }
 
 func SetMapOrderDesc(desc bool) {}
+
+func Notes(r ExecResult) []string { return nil }
